@@ -130,7 +130,9 @@ func (l *loader) loadNetwork(pNet *acmelibv1.Network) (*Network, error) {
 		if err != nil {
 			return nil, err
 		}
-		net.AddBus(bus)
+		if err := net.AddBus(bus); err != nil {
+			return nil, err
+		}
 	}
 
 	return net, nil
